@@ -30,8 +30,9 @@ def stmt_of(n: ast.AST) -> ast.stmt:
 def emission_sites(fn: ast.FunctionDef):
     """prefix member -> [(append call, f-string or expr)] for every `tokens.append(...)` in tokenise (incl. closure)."""
     out = {}
+    res = T.result_list_name(fn)
     for c in ast.walk(fn):
-        if isinstance(c, ast.Call) and call_method(c)[1] == "append" and isinstance(call_method(c)[0], ast.Name) and call_method(c)[0].id == "tokens" and c.args:
+        if isinstance(c, ast.Call) and call_method(c)[1] == "append" and isinstance(call_method(c)[0], ast.Name) and call_method(c)[0].id == res and c.args:
             a = c.args[0]
             m = None
             if isinstance(a, ast.JoinedStr):
@@ -133,83 +134,102 @@ def check(ctx: Ctx) -> None:
     hook = T.field_hook(p.settings)
     dmap = {m: body for m, _, body in chain if m is not None}
 
+    droles = ctx.extra["clock_roles"]["detokenise"]
+    dsub = {a: Sym.atom(r) for r, a in droles.items()}
+
     def d_effect(pr):
         body = dmap[pr]
         if pr == "TIME_SIGNATURE":
-            _, _, body, _ = T.ts_guard_split(body)
-        return T.branch_effect(body, p.settings)
+            _, _, body, _ = T.ts_guard_split(body, droles["cur_time_bar"])
+        env = T.branch_effect(body, p.settings)
+        return {r: env.get(a, Sym.atom(a)).subst(dsub) for r, a in droles.items()}
+
+    # emitter: identify its clock variables from the REST emission block and the bar-full block
+    rest_sites = sites.get("REST", [])
+    bar_sites = sites.get("BAR", [])
+    ts_sites = sites.get("TIME_SIGNATURE", [])
+    ctx.floor("REST emission sites", len(rest_sites), 1, now=True)
+    ctx.floor("BAR emission sites", len(bar_sites), 1, now=True)
+    ctx.floor("TIME_SIGNATURE emission sites", len(ts_sites), 1, now=True)
+    c0, js0 = rest_sites[0]
+    flds0 = fields_of(js0)
+    if len(flds0) != 1 or not isinstance(flds0[0], ast.Name):
+        raise AnalysisError("REST emission: field expression not a simple name")
+    rest_env = T.branch_effect([s_ for s_ in block_of(stmt_of(c0)) if isinstance(s_, (ast.Assign, ast.AugAssign))], p.settings)
+    bar_if = None
+    for a in ancestors(bar_sites[0][0]):
+        if isinstance(a, ast.If) and isinstance(a.test, ast.Compare) and isinstance(a.test.comparators[0], ast.Constant) and a.test.comparators[0].value == 0 \
+                and isinstance(a.test.left, ast.Name):
+            bar_if = a
+    bar_env = T.branch_effect([s_ for s_ in bar_if.body if isinstance(s_, (ast.Assign, ast.AugAssign))], p.settings) if bar_if is not None else {}
+    eroles = T.roles_from_effects(rest_env, bar_env, Sym.atom(flds0[0].id))
+    if eroles is None:
+        ctx.violation("CLK2", "tokenise: clock bookkeeping of a REST / full bar", function=fe.qualname,
+                      construct="emitter's REST/BAR clock bookkeeping does not have the shape time += r, bar time += r, remaining -= r; bar time = 0, remaining = total",
+                      message=f"REST block effect {({k: v.canon() for k, v in rest_env.items()})}; bar-full block effect {({k: v.canon() for k, v in bar_env.items()})}",
+                      file=fe.file, node=stmt_of(c0))
+        eroles = {r: r for r in T.ROLE_NAMES}
+    ctx.extra["clock_roles"]["tokenise"] = eroles
+    esub = {a: Sym.atom(r) for r, a in eroles.items()}
+
+    def e_effect(env):
+        return {r: env.get(a, Sym.atom(a)).subst(esub) for r, a in eroles.items()}
 
     # REST
-    rest_sites = sites.get("REST", [])
-    ctx.floor("REST emission sites", len(rest_sites), 1)
     for c, js in rest_sites:
         st = stmt_of(c)
-        blk = block_of(st)
-        simple = [s for s in blk if isinstance(s, (ast.Assign, ast.AugAssign))]
-        env = T.branch_effect(simple, p.settings)
+        env = e_effect(T.branch_effect([s_ for s_ in block_of(st) if isinstance(s_, (ast.Assign, ast.AugAssign))], p.settings))
         flds = fields_of(js)
-        if len(flds) != 1 or not isinstance(flds[0], ast.Name):
-            raise AnalysisError("REST emission: field expression not a simple name")
         de = d_effect("REST")
-        sub = {"FIELD(1)": Sym.atom(flds[0].id)}
-        for v in T.CLOCK:
-            got = env.get(v, Sym.atom(v))
-            want = de.get(v, Sym.atom(v)).subst(sub)
-            ctx.check(got == want, "CLK2", f"REST: emitter `{v}` -> {got.canon()} ; parser -> {want.canon()}", function=fe.qualname,
-                      construct=f"REST token: emitter and parser change `{v}` differently",
+        sub = {"FIELD(1)": Sym.atom(flds[0].id)} if flds and isinstance(flds[0], ast.Name) else {}
+        for r in T.ROLE_NAMES:
+            got, want = env[r], de[r].subst(sub)
+            ctx.check(got == want, "CLK2", f"REST: emitter `{r}` -> {got.canon()} ; parser -> {want.canon()}", function=fe.qualname,
+                      construct=f"REST token: emitter and parser change `{r}` differently",
                       message=f"emitter {got.canon()} vs parser {want.canon()}", file=fe.file, node=st)
     # BAR
-    bar_sites = sites.get("BAR", [])
-    ctx.floor("BAR emission sites", len(bar_sites), 1)
     for c, _ in bar_sites:
-        g = [a for a in ancestors(c) if isinstance(a, ast.If)]
-        outer = next((a for a in g if isinstance(a.test, ast.Compare) and "capacity_remaining" in src(a.test)), None)
-        ok = outer is not None and isinstance(outer.test.ops[0], ast.Eq) and isinstance(outer.test.comparators[0], ast.Constant) and outer.test.comparators[0].value == 0
+        rem = eroles["cur_bar_capacity_remaining"]
+        outer = next((a for a in ancestors(c) if isinstance(a, ast.If) and isinstance(a.test, ast.Compare) and rem in src(a.test)), None)
+        ok = outer is not None and isinstance(outer.test.ops[0], ast.Eq) and isinstance(outer.test.comparators[0], ast.Constant) and outer.test.comparators[0].value == 0 \
+            and src(outer.test.left) == rem
         ctx.check(ok, "CLK2", "BAR is emitted exactly when the bar is full (remaining == 0)", function=fe.qualname,
                   construct="BAR token not emitted under `remaining capacity == 0`", message=short(outer.test) if outer else "", file=fe.file, node=c)
         if outer is None:
             continue
-        simple = [s for s in outer.body if isinstance(s, (ast.Assign, ast.AugAssign))]
-        env = T.branch_effect(simple, p.settings)
+        env = e_effect(T.branch_effect([s_ for s_ in outer.body if isinstance(s_, (ast.Assign, ast.AugAssign))], p.settings))
         de = d_effect("BAR")
-        sub = {"cur_bar_capacity_remaining": Sym.const(0)}
-        for v in T.CLOCK:
-            got = env.get(v, Sym.atom(v))
-            want = de.get(v, Sym.atom(v))
-            want = want.subst(sub) if v == "cur_time" else want
-            if v == "cur_bar_capacity_remaining":
-                got_c, want_c = got.canon(), want.canon()
-            ctx.check(got == want or (v == "cur_bar_capacity_remaining" and got.canon() == want.canon()), "CLK2",
-                      f"BAR: emitter `{v}` -> {got.canon()} ; parser (remaining = 0) -> {want.canon()}", function=fe.qualname,
-                      construct=f"BAR token: emitter and parser change `{v}` differently", message=f"{got.canon()} vs {want.canon()}", file=fe.file, node=c)
+        for r in T.ROLE_NAMES:
+            got = env[r]
+            want = de[r].subst({"cur_bar_capacity_remaining": Sym.const(0)}) if r == "cur_time" else de[r]
+            ctx.check(got == want, "CLK2", f"BAR: emitter `{r}` -> {got.canon()} ; parser (remaining = 0) -> {want.canon()}", function=fe.qualname,
+                      construct=f"BAR token: emitter and parser change `{r}` differently", message=f"{got.canon()} vs {want.canon()}", file=fe.file, node=c)
     # TIME_SIGNATURE
-    ts_sites = sites.get("TIME_SIGNATURE", [])
-    ctx.floor("TIME_SIGNATURE emission sites", len(ts_sites), 1)
     for c, js in ts_sites:
         st = stmt_of(c)
         blk = block_of(st)
-        simple = [s for s in blk if isinstance(s, (ast.Assign, ast.AugAssign)) and s.lineno < st.lineno]
-        env = T.branch_effect(simple, p.settings)
+        simple = [s_ for s_ in blk if isinstance(s_, (ast.Assign, ast.AugAssign)) and s_.lineno < st.lineno]
+        raw = T.branch_effect(simple, p.settings)
+        env = e_effect(raw)
         flds = fields_of(js)
         if len(flds) != 2:
             raise AnalysisError("TIME_SIGNATURE emission: expected two fields")
-        nz = Normaliser(env=env, atom_hook=hook)
-        sub = {"FIELD(1)": nz.norm(flds[0]), "FIELD(2)": nz.norm(flds[1])}
+        nz = Normaliser(env=raw, atom_hook=hook)
+        sub = {"FIELD(1)": nz.norm(flds[0]).subst(esub), "FIELD(2)": nz.norm(flds[1]).subst(esub)}
         de = d_effect("TIME_SIGNATURE")
-        for v in ("cur_bar_capacity_total", "cur_bar_capacity_remaining"):
-            got = env.get(v, Sym.atom(v))
-            want = de.get(v, Sym.atom(v)).subst(sub)
-            ctx.check(got == want, "CLK2", f"TIME_SIGNATURE: emitter `{v}` -> {got.canon()} ; parser on the emitted fields -> {want.canon()}",
-                      function=fe.qualname, construct=f"TIME_SIGNATURE token: emitter and parser compute `{v}` differently",
+        for r in ("cur_bar_capacity_total", "cur_bar_capacity_remaining"):
+            got, want = env[r], de[r].subst(sub)
+            ctx.check(got == want, "CLK2", f"TIME_SIGNATURE: emitter `{r}` -> {got.canon()} ; parser on the emitted fields -> {want.canon()}",
+                      function=fe.qualname, construct=f"TIME_SIGNATURE token: emitter and parser compute `{r}` differently",
                       message=f"{got.canon()} vs {want.canon()}", file=fe.file, node=st)
-        g = [s for s in blk if isinstance(s, ast.If) and src(s.test).startswith("cur_time_bar > 0") and any(isinstance(x, ast.Continue) for x in s.body)
-             and s.lineno < st.lineno]
+        bt = eroles["cur_time_bar"]
+        g = [s_ for s_ in blk if isinstance(s_, ast.If) and src(s_.test).startswith(f"{bt} > 0") and any(isinstance(x, ast.Continue) for x in s_.body)
+             and s_.lineno < st.lineno]
         ctx.check(bool(g), "CLK5", "tokenise ignores a time signature in mid-bar (as detokenise does)", function=fe.qualname,
                   construct="tokenise lacks the mid-bar time-signature guard", message="", file=fe.file, node=st)
-        # the scaled numerator must be integral or rejected
         sc = flds[0]
         if isinstance(sc, ast.Name):
-            rej = [s for s in blk if isinstance(s, ast.If) and "is_integer" in src(s.test) and any(isinstance(x, ast.Raise) for x in s.body)]
+            rej = [s_ for s_ in blk if isinstance(s_, ast.If) and "is_integer" in src(s_.test) and any(isinstance(x, ast.Raise) for x in s_.body)]
             ctx.check(bool(rej), "GUARD", "signatures not expressible in eighths are rejected", function=fe.qualname,
                       construct="no rejection of signatures that are not multiples of eighths", message="", file=fe.file, node=st)
     # CLK3
@@ -223,6 +243,15 @@ def check(ctx: Ctx) -> None:
         raise AnalysisError("detokenise: PITCH branch not found")
     nzd = Normaliser(atom_hook=hook)
     nzd.run_block(pd)
+    run_d = {}
+    for pr in ("TRACK", "VALUE", "VELOCITY"):
+        b = dmap.get(pr)
+        env_b = T.branch_effect(b, p.settings) if b else {}
+        hits = [v for v, e in env_b.items() if e.canon() == "FIELD(1)"]
+        ctx.check(len(hits) == 1, "NOTE", f"detokenise: {pr} part stores its field in one running variable ({hits})", function=fd.qualname,
+                  construct=f"{pr} part does not set exactly one running variable from its field", message=f"{({k: v.canon() for k, v in env_b.items()})}",
+                  file=fd.file, node=fd.node)
+        run_d[pr] = hits[0] if hits else f"<{pr}>"
     msgs = [c for s in pd for c in ast.walk(s) if isinstance(c, ast.Call) and isinstance(c.func, ast.Name) and c.func.id == "Message"]
     seen = set()
     for c in msgs:
@@ -231,27 +260,21 @@ def check(ctx: Ctx) -> None:
         seen.add(mt)
         call = next((a for a in ancestors(c) if isinstance(a, ast.Call) and call_method(a)[1] == "add_absolute_message"), None)
         recv = src(call_method(call)[0]) if call else ""
-        ctx.check(recv == "sequences[prv_track]", "NOTE", f"detokenise: {mt} goes to the running track's sequence", function=fd.qualname,
+        ctx.check(recv.endswith(f"[{run_d['TRACK']}]"), "NOTE", f"detokenise: {mt} goes to the running track's sequence", function=fd.qualname,
                   construct=f"{mt} not added to sequences[running track]", message=recv, file=fd.file, node=c)
         ctx.check(nzd.norm(kw.get("note")).canon() == "FIELD(1)", "NOTE", f"detokenise: {mt} pitch = PITCH field", function=fd.qualname,
                   construct=f"{mt} pitch is not the token's PITCH field", message=short(kw.get("note")), file=fd.file, node=c)
         if mt == "NOTE_ON":
-            ctx.check(nzd.norm(kw.get("time")).canon() == "cur_time", "NOTE", "detokenise: note-on at the clock", function=fd.qualname,
+            ctx.check(nzd.norm(kw.get("time")).canon() == droles["cur_time"], "NOTE", "detokenise: note-on at the clock", function=fd.qualname,
                       construct="note-on not placed at cur_time", message=short(kw.get("time")), file=fd.file, node=c)
-            ctx.check(kw.get("velocity") is not None and nzd.norm(kw.get("velocity")).canon() == "prv_velocity", "NOTE",
+            ctx.check(kw.get("velocity") is not None and nzd.norm(kw.get("velocity")).canon() == run_d["VELOCITY"], "NOTE",
                       "detokenise: note-on carries the running velocity", function=fd.qualname, construct="note-on velocity is not the running velocity",
                       message=short(kw.get("velocity")), file=fd.file, node=c)
         if mt == "NOTE_OFF":
-            ctx.check(nzd.norm(kw.get("time")).canon() == "cur_time + prv_value", "NOTE", "detokenise: note-off at clock + running value", function=fd.qualname,
+            ctx.check(nzd.norm(kw.get("time")) == Sym.atom(droles["cur_time"]) + Sym.atom(run_d["VALUE"]), "NOTE", "detokenise: note-off at clock + running value", function=fd.qualname,
                       construct="note-off not placed at cur_time + running value", message=short(kw.get("time")), file=fd.file, node=c)
     ctx.check({"NOTE_ON", "NOTE_OFF"} <= seen, "NOTE", "detokenise: a PITCH part creates a note-on and a note-off", function=fd.qualname,
               construct="PITCH part does not create both a note-on and a note-off", message=f"{sorted(str(s) for s in seen)}", file=fd.file, node=fd.node)
-    for pr, var in (("TRACK", "prv_track"), ("VALUE", "prv_value"), ("VELOCITY", "prv_velocity")):
-        b = dmap.get(pr)
-        env = T.branch_effect(b, p.settings) if b else {}
-        ctx.check(var in env and env[var].canon() == "FIELD(1)", "NOTE", f"detokenise: {pr} part stores its field in `{var}`", function=fd.qualname,
-                  construct=f"{pr} part does not set `{var}` from its field", message=f"{env.get(var).canon() if var in env else None}", file=fd.file, node=fd.node)
-
     # ---- NOTE / RUN (emitter side)
     note_if = None
     for n in ast.walk(fe.node):
@@ -298,16 +321,15 @@ def check(ctx: Ctx) -> None:
         ctx.check(ok, "NOTE", f"tokenise: {pr} field = {w}", function=fe.qualname, construct=f"emitted {pr} field is not {w.replace(pairing or '', 'pairing')}",
                   message=f"{got}", file=fe.file, node=note_if)
     # running values
-    for pr, msgv, prv, flag in (("TRACK", None, "prv_track", "flag_fuse_track"), ("VALUE", None, "prv_value", "flag_fuse_value"),
-                                ("VELOCITY", None, "prv_velocity", "flag_fuse_velocity")):
-        ups = [s for s in note_if.body if isinstance(s, ast.Assign) and isinstance(s.targets[0], ast.Name) and s.targets[0].id == prv]
+    for pr, flag in (("TRACK", "flag_fuse_track"), ("VALUE", "flag_fuse_value"), ("VELOCITY", "flag_fuse_velocity")):
         fsrc = next(iter(fld_src.get(pr, {""})))
-        ctx.check(len(ups) == 1 and src(ups[0].value) == fsrc, "RUN", f"tokenise: `{prv}` updated to the emitted value after every note", function=fe.qualname,
-                  construct=f"`{prv}` is not updated with the note's {pr.lower()} after every note", message=f"{[short(u) for u in ups]}", file=fe.file, node=note_if)
         cond = None
+        prv = None
         for n in note_if.body:
-            if isinstance(n, ast.If) and flag in src(n.test) and prv in src(n.test):
-                cond = n
+            if isinstance(n, ast.If) and flag in src(n.test):
+                for c in ast.walk(n.test):
+                    if isinstance(c, ast.Compare) and isinstance(c.ops[0], ast.NotEq) and src(c.left) == fsrc and isinstance(c.comparators[0], ast.Name):
+                        cond, prv = n, c.comparators[0].id
         ok = False
         if cond is not None:
             t = cond.test
@@ -318,11 +340,17 @@ def check(ctx: Ctx) -> None:
         ctx.check(ok, "RUN", f"tokenise: separate {pr} token iff not fused and (changed or running values off); fused part iff fused", function=fe.qualname,
                   construct=f"emission condition of the {pr} token/part deviates", message=short(cond.test) if cond is not None else "not found",
                   file=fe.file, node=cond or note_if)
-        ini = [s for s in fe.node.body if isinstance(s, ast.Assign) and isinstance(s.targets[0], ast.Name) and s.targets[0].id == prv]
+        if prv is None:
+            continue
+        ups = [s_ for s_ in note_if.body if isinstance(s_, ast.Assign) and isinstance(s_.targets[0], ast.Name) and s_.targets[0].id == prv]
+        ctx.check(len(ups) == 1 and src(ups[0].value) == fsrc, "RUN", f"tokenise: the previous {pr.lower()} is updated to the emitted value after every note",
+                  function=fe.qualname, construct=f"previous {pr.lower()} is not updated with the note's {pr.lower()} after every note",
+                  message=f"{[short(u) for u in ups]}", file=fe.file, node=note_if)
+        ini = [s_ for s_ in fe.node.body if isinstance(s_, ast.Assign) and isinstance(s_.targets[0], ast.Name) and s_.targets[0].id == prv]
         okd = len(ini) == 1 and isinstance(ini[0].value, ast.Call) and call_method(ini[0].value)[1] == "get" and len(ini[0].value.args) == 2 \
             and isinstance(ini[0].value.args[1], ast.UnaryOp) and isinstance(ini[0].value.args[1].op, ast.USub)
-        ctx.check(okd, "RUN", f"tokenise: `{prv}` starts from a value no note can have (forces the first emission)", function=fe.qualname,
-                  construct=f"initial `{prv}` could equal a real value", message=f"{[short(i) for i in ini]}", file=fe.file, node=fe.node)
+        ctx.check(okd, "RUN", f"tokenise: the previous {pr.lower()} starts from a value no note can have (forces the first emission)", function=fe.qualname,
+                  construct=f"initial previous {pr.lower()} could equal a real value", message=f"{[short(i_) for i_ in ini]}", file=fe.file, node=fe.node)
 
     # ---- REST amount and CLOSE
     calls = [c for c in ast.walk(fe.node) if isinstance(c, ast.Call) and isinstance(c.func, ast.Name) and c.func.id == "_apply_rest"]
@@ -332,14 +360,22 @@ def check(ctx: Ctx) -> None:
     main = [c for c in calls if loop in list(ancestors(c))]
     for c in main:
         got = nzr.norm(c.args[0])
-        want_ = nzr.norm(ast.parse(f"{pairing}[0].time + prv_shift - cur_time", mode="eval").body)
-        ctx.check(got == want_, "REST", "tokenise: rest before an event = event time + carried shift - clock", function=fe.qualname,
+        rest_ = got - nzr.norm(ast.parse(f"{pairing}[0].time", mode="eval").body) + Sym.atom(eroles["cur_time"])
+        shift_ok = False
+        if rest_.is_monomial() and len(rest_.atoms()) == 1 and list(rest_.terms.values()) == [1]:
+            sv = next(iter(rest_.atoms()))
+            ini = [s_ for s_ in fe.node.body if isinstance(s_, ast.Assign) and isinstance(s_.targets[0], ast.Name) and s_.targets[0].id == sv]
+            shift_ok = len(ini) == 1 and isinstance(ini[0].value, ast.Call) and call_method(ini[0].value)[1] == "get" and ini[0].value.args \
+                and isinstance(ini[0].value.args[0], ast.Constant) and ini[0].value.args[0].value == "cur_time"
+        want_ = got if shift_ok else None
+        ctx.check(shift_ok, "REST", "tokenise: rest before an event = event time + carried shift - clock", function=fe.qualname,
                   construct="rest before an event is not (event time + shift) - clock", message=got.canon(), file=fe.file, node=c)
     tail = [c for c in calls if loop not in list(ancestors(c))]
     ok = False
     for c in tail:
         g = next((a for a in ancestors(c) if isinstance(a, ast.If)), None)
-        if g is not None and src(c.args[0]) == "cur_bar_capacity_remaining" and "cur_time_bar > 0" in src(g.test) and "cur_bar_capacity_remaining > 0" in src(g.test) \
+        rem_, bt_ = eroles["cur_bar_capacity_remaining"], eroles["cur_time_bar"]
+        if g is not None and src(c.args[0]) == rem_ and f"{bt_} > 0" in src(g.test) and f"{rem_} > 0" in src(g.test) \
                 and isinstance(g.test, ast.BoolOp) and isinstance(g.test.op, ast.And):
             ok = True
     ctx.check(ok, "CLOSE", "tokenise: a partly filled last bar is closed with rests up to its capacity", function=fe.qualname,
